@@ -30,6 +30,16 @@ def gen(rng, tier):
         # dryoc seals with the OS generator, libsodium opens it, and vice versa (classic + object API)
         if n < 64 or idx % 8 == 0:
             cs.append(Case("box_seal_rt %s %s %s" % (hx(I.rpk), hx(I.rsk), hx(I.msg)), cls="seal-roundtrip", expect="ok"))
+    # messages beyond every small-length sweep (just below / at / above 64 KiB and 128 KiB, and an odd large one): every encrypt form
+    # against the reference and libsodium, every open form back to the message
+    for n in ((65537, 131073) if tier == "quick" else (65535, 65536, 65537, 70001, 131072, 131073, 200000, (1 << 20) + 1)):
+        I = Inst(rng, n, style=0)
+        for form in ENC_FORMS:
+            c = enc_case(form, I); c.cls = "large-" + c.cls
+            cs.append(c)
+        for form in OPEN_FORMS:
+            cs.append(Case(open_line(form, I), cls="large-open/" + form.split(" ")[0], expect=(lambda a, e="ok " + hx(I.msg): a == e),
+                           meta={"why": "opening an honest %d-byte ciphertext did not return the message" % n}))
     # the key pairs the boxes are made with may come from a seed (classic, in-place and `KeyPair::from_seed`): same pair as libsodium's
     for n in [32] * 12 + [0, 1, 16, 31, 33, 64, 100]:
         cs.append(Case("box_seed_keypair %s" % hx(rbytes(rng, n)), cls="seeded-keypair", meta={"no_spec": n != 32}))
